@@ -20,6 +20,7 @@ import DSymVerif.Proofs.DSymGenNodup
 import DSymVerif.Proofs.DSymGenCanon
 import DSymVerif.Proofs.DSymGenSum
 import DSymVerif.Proofs.DSymGenIso
+import DSymVerif.Proofs.DSymGenGood
 import DSymVerif.Proofs.DSymGenBox
 import DSymVerif.Proofs.Delaney2dChi
 import DSymVerif.Spec.C07
@@ -596,6 +597,48 @@ theorem emitted_pairwise_non_isomorphic (ds : DSetData) (g : Geom) (c : Ctx) (h 
     unfold isCanonical at hcan'
     rw [hms] at hcan'
     exact huniq w' ((symIso_iff_act ok hA hB vs w' hl hw'l).mp hiso) hcan'
+
+/-- everything the generator's filter looks at is a class invariant: if `m` is an orbit map then
+    `vs ∘ m` is admissible / has the same exact curvature and bookkeeping value / is minimally
+    hyperbolic / passes `is_good` whenever `vs` does (automorphisms preserve orbit lengths and chain
+    flags and permute the orbit numbers; the private `orbifold_symbol` sorts its lists). -/
+theorem filter_is_class_invariant (ds : DSetData) (g : Geom) (c : Ctx) (h : mkCtx ds g = .ok c)
+    (hd : InDomain ds) (hnb : ¬ c.baseCurv < 0) (ms : List (List Nat)) (hms : c.maps = some ms)
+    (m : List Nat) (hm : m ∈ ms) (vs : List Nat) (ha : Adm c vs) :
+    Adm c (act m vs) ∧ curvQ c (act m vs) = curvQ c vs ∧ scaled c (act m vs) = scaled c vs ∧
+    (MinHyp c vs → MinHyp c (act m vs)) ∧
+    isGood c (act m vs) (scaled c (act m vs)) = isGood c vs (scaled c vs) := by
+  have hw := mkCtx_wf h
+  obtain ⟨ms', hms', _, hA, hB, _⟩ := mkCtx_maps h hd.valid hd.connected hd.nonempty hnb
+  rw [hms] at hms'
+  cases hms'
+  obtain ⟨f, f', m', _, mp⟩ := mapPair_of_mem hd.valid hd.connected hd.nonempty hA hB hm
+  have hinj := (aut_bijective hd.valid hd.connected hd.nonempty mp.af).1
+  exact ⟨adm_act h hd.valid mp hinj ha, curvQ_act h hd.valid mp hinj ha.1,
+    scaled_act h hd.valid mp hinj ha.1 (adm_bounds hw ha),
+    minHyp_act h hd.valid mp hinj hw ha, isGood_act h hd.valid mp hinj hw ha⟩
+
+/-- **`one_symbol_per_isomorphism_class`** — the irredundancy / completeness clause of C07 for the
+    model, for every D-set of the domain and every geometry (`base_curvature ≥ 0`): every emitted
+    vector is admissible, meets the geometry's condition in exact rational curvature and passes
+    `is_good`; and for every vector with these three properties there is exactly one emitted vector
+    whose symbol is isomorphic to its symbol.  So the emitted symbols are a transversal of the
+    isomorphism classes of the symbols the generator's conditions describe. -/
+theorem one_symbol_per_isomorphism_class (ds : DSetData) (g : Geom) (c : Ctx) (h : mkCtx ds g = .ok c)
+    (hd : InDomain ds) (hnb : ¬ c.baseCurv < 0) :
+    (∀ vs, Outcome.ok vs ∈ dsyms c →
+      Adm c vs ∧ GeomCond g c vs ∧ isGood c vs (scaled c vs) = .ok true) ∧
+    (∀ vs, Adm c vs → GeomCond g c vs → isGood c vs (scaled c vs) = .ok true →
+      ∃ ws, (Outcome.ok ws ∈ dsyms c ∧ SymIso ds c vs ws) ∧
+        ∀ ws', Outcome.ok ws' ∈ dsyms c → SymIso ds c vs ws' → ws' = ws) := by
+  refine ⟨fun vs hvs => ?_, fun vs ha hgeo hgood =>
+    emitted_transversal h hd.valid hd.connected hd.nonempty hnb vs ha hgeo hgood⟩
+  obtain ⟨a, b, c', _⟩ := (dsyms_output ds g c h hnb vs).mp hvs
+  exact ⟨a, b, c'⟩
+
+example : ∃ c, mkCtx ex1 .all = .ok c ∧ InDomain ex1 ∧ ¬ c.baseCurv < 0 := by
+  refine ⟨_, rfl, ex1_inDomain, ?_⟩
+  decide +kernel
 
 /-! ### open (not theorems): the statements, for the record -/
 
